@@ -354,8 +354,11 @@ def build_impls(funcs, repo_root):
 
 def load_crate(mir_path, repo_root, src_dir):
     c = Crate()
-    c.funcs = parse_mir(open(mir_path).read())
+    text = open(mir_path).read()
+    c.funcs = parse_mir(text)
     c.enums, c.structs, c.consts = scan_source(src_dir)
+    # one-line const items of the MIR dump (`const path::NAME: T = const LITERAL;`): evaluated like any literal operand
+    c.mir_consts = {m.group(1): m.group(2) for m in re.finditer(r'^const ([\w:]+): [^=\n]+ = const (.+);$', text, re.M)}
     c.impls = build_impls(c.funcs, repo_root)
     c.closure_map = {}
     for name, f in c.funcs.items():
@@ -611,6 +614,9 @@ class Interp:
             return Closure(c[len('ZeroSized: '):], [])
         if c in self.consts:
             return self.consts[c]
+        mc = getattr(self.crate, 'mir_consts', {})
+        if c in mc and mc[c] != c:
+            return self.operand(fr, ('const', mc[c]), f)
         sc = strip_generics(c)
         if sc in self.consts:
             return self.consts[sc]
